@@ -33,8 +33,10 @@ import (
 	"time"
 
 	"github.com/IrineSistiana/mosproxy/app/router"
+	"github.com/IrineSistiana/mosproxy/internal/mlog"
 	"github.com/IrineSistiana/mosproxy/verifharness/hx"
 	"github.com/quic-go/quic-go"
+	"github.com/rs/zerolog"
 )
 
 func init() { register("admit", 2, runAdmit) }
@@ -312,7 +314,11 @@ func admitGuard(id string, limit time.Duration, fn func() string) string {
 	}
 }
 
+var admitOnce sync.Once
+
 func runAdmit(id string, parts []string) string {
+	// the in-process router logs to stdout (zerolog console writer); stdout carries the result lines
+	admitOnce.Do(func() { mlog.SetLvl(zerolog.Disabled) })
 	f := hx.Fields(parts)
 	return admitGuard(id, 20*time.Second, func() string {
 		uc, err := net.ListenUDP("udp", &net.UDPAddr{IP: net.IPv4(127, 0, 0, 1)})
